@@ -178,6 +178,12 @@ class Program:
         for crate in crates:
             path = self.mir_files.get(crate) or os.path.join(scratch, crate + '.mir')
             funcs, dups = mirparse.parse_mir(path, crate)
+            # `const {allocN: &T}` operands refer to statics through the allocation table printed with each function
+            import re as _re
+            if not hasattr(self, 'alloc_static'):
+                self.alloc_static = {}
+            for m in _re.finditer(r'^(alloc\d+) \(static: ([\w:]+),', open(path, encoding='utf-8', errors='replace').read(), _re.M):
+                self.alloc_static[(crate, m.group(1))] = m.group(2)
             for name, f in funcs.items():
                 key = name
                 if key in self.funcs:               # same trimmed name in both crates: qualify
